@@ -407,4 +407,267 @@ theorem atsignM_safe {m : MP} (sp : SPtr) (hne : m.p.states ≠ []) (c : B) : (a
   repeat' split
   all_goals simp [decStateM_fault, this]
 
+theorem tokencharM_p (scan : List B → Option String) {m : MP} {sp : SPtr} (h : IsTop m sp) {s : Frame} {rest : List Frame}
+    (hs : m.p.states = s :: rest) (c : B) :
+    (tokencharM scan m sp c).1.p = (tokenchar scan m.p s c).1 ∧ (tokencharM scan m sp c).2 = (tokenchar scan m.p s c).2 := by
+  have hr : readState m sp = s := by rw [h.read, hs]; rfl
+  unfold tokencharM tokenchar
+  by_cases h1 : isSymbolChar c = true
+  · simp only [h1, if_true]
+    by_cases h2 : c > 127
+    · simp [h2, IsTop.write_p, h]
+    · simp [h2]
+  · simp only [h1, Bool.false_eq_true, if_false, chk_p, readState_chk, hr]
+    cases classifyToken scan m.p.buf (s.argn != 0) with
+    | error e => simp
+    | ok v =>
+      simp only []
+      rw [popstateM_p _ _ _ (by simp)]
+      simp
+
+theorem tokencharM_safe (scan : List B → Option String) {m : MP} {sp : SPtr} (h : IsTop m sp) {s : Frame} {rest : List Frame}
+    (hs : m.p.states = s :: rest) (hok : okFrames m.p.states = true) (hc : s.consumer ≠ .root) (c : B)
+    (hb : m.p.buf ≠ [] ∨ isSymbolChar c = true) : (tokencharM scan m sp c).1.fault = m.fault := by
+  unfold tokencharM
+  by_cases h1 : isSymbolChar c = true
+  · simp only [h1, if_true]
+    split <;> simp [IsTop.write_fault, h]
+  · have hbuf : 0 < m.p.buf.length := by
+      rcases hb with hb | hb
+      · exact List.length_pos_iff.mpr hb
+      · exact absurd hb h1
+    simp only [h1, Bool.false_eq_true, if_false, hbuf, decide_true, chk_true, h.deref]
+    cases classifyToken scan m.p.buf ((readState m sp).argn != 0) with
+    | error e => simp
+    | ok v =>
+      simp only []
+      have h2 : 2 ≤ m.p.states.length := by rw [hs]; rw [hs] at hok; exact two_frames hok hc
+      exact popstateM_safe _ (clearBufM m) _ (Nat.le_refl _) hok h2
+
+theorem longstringM_p {m : MP} {sp : SPtr} (h : IsTop m sp) {s : Frame} {rest : List Frame} (hs : m.p.states = s :: rest) (c : B) :
+    (longstringM m sp c).1.p = (longstring m.p s c).1 ∧ (longstringM m sp c).2 = (longstring m.p s c).2 := by
+  have hr : readState m sp = s := by rw [h.read, hs]; rfl
+  unfold longstringM longstring
+  simp only [h.deref, chk_true, hr]
+  by_cases h1 : hasFlag s.flags PFLAG_INSTRING = true
+  · simp only [h1, if_true]
+    by_cases h2 : (c == 96) = true
+    · simp [h2, IsTop.write_p, h, setTop, hs]
+    · simp [h2]
+  · simp only [h1, Bool.false_eq_true, if_false]
+    by_cases h2 : hasFlag s.flags PFLAG_END_CANDIDATE = true
+    · simp only [h2, if_true]
+      by_cases h3 : (s.counter == s.argn) = true
+      · simp [h3, stringendM_p h hs]
+      · simp only [h3, Bool.false_eq_true, if_false]
+        by_cases h4 : (c == 96 && decide (s.counter < s.argn)) = true
+        · simp [h4, IsTop.write_p, h]
+        · simp [h4, IsTop.write_p, h, setTop, hs, pushBytesM_p, pushBuf]
+    · simp only [h2, Bool.false_eq_true, if_false]
+      by_cases h3 : (c != 96) = true
+      · simp [h3, IsTop.write_p, h, setTop, hs, pushBuf]
+      · simp [h3, IsTop.write_p, h]
+
+theorem longstringM_safe {m : MP} {sp : SPtr} (h : IsTop m sp) {s : Frame} {rest : List Frame} (hs : m.p.states = s :: rest)
+    (hok : okFrames m.p.states = true) (hc : s.consumer ≠ .root) (c : B) : (longstringM m sp c).1.fault = m.fault := by
+  unfold longstringM
+  simp only [h.deref, chk_true]
+  split
+  · split <;> simp [IsTop.write_fault, h]
+  · split
+    · split
+      · exact stringendM_safe h hok (by rw [hs]; rw [hs] at hok; exact two_frames hok hc)
+      · split <;> simp [IsTop.write_fault, h, pushBytesM_fault]
+    · split <;> simp [IsTop.write_fault, h]
+
+theorem closeDelimM_p {m : MP} {sp : SPtr} (h : IsTop m sp) {s : Frame} {rest : List Frame} (hs : m.p.states = s :: rest) (c : B) :
+    (closeDelimM m sp c).1.p = (closeDelim m.p s c).1 ∧ (closeDelimM m sp c).2 = (closeDelim m.p s c).2 := by
+  have hr : readState m sp = s := by rw [h.read, hs]; rfl
+  unfold closeDelimM closeDelim
+  by_cases h1 : (m.p.states.length == 1) = true
+  · simp [h1]
+  · simp only [h1, Bool.false_eq_true, if_false, h.deref, chk_true, hr]
+    by_cases h2 : ((c == 41 && hasFlag s.flags PFLAG_PARENS) || (c == 93 && hasFlag s.flags PFLAG_SQRBRACKETS)) = true
+    · simp only [h2, if_true, takeArgs]
+      rw [popstateM_p _ _ _ (by simp)]
+      simp
+    · simp only [h2, Bool.false_eq_true, if_false]
+      by_cases h3 : (c == 125 && hasFlag s.flags PFLAG_CURLYBRACKETS) = true
+      · simp only [h3, if_true]
+        by_cases h4 : (s.argn % 2 == 1) = true
+        · simp [h4]
+        · simp only [h4, Bool.false_eq_true, if_false, takeArgs]
+          rw [popstateM_p _ _ _ (by simp)]
+          simp
+      · simp [h3]
+
+theorem closeDelimM_safe {m : MP} {sp : SPtr} (h : IsTop m sp) {s : Frame} {rest : List Frame} (hs : m.p.states = s :: rest)
+    (hok : okFrames m.p.states = true) (hargs : 2 ≤ m.p.states.length → s.argn ≤ m.p.args.length) (c : B) :
+    (closeDelimM m sp c).1.fault = m.fault := by
+  have hr : readState m sp = s := by rw [h.read, hs]; rfl
+  have hpos : 0 < m.p.states.length := by rw [hs]; simp
+  unfold closeDelimM
+  by_cases h1 : (m.p.states.length == 1) = true
+  · simp [h1, delimErrorM_fault]
+  · have h2l : 2 ≤ m.p.states.length := by
+      have : m.p.states.length ≠ 1 := by simpa using h1
+      omega
+    have ha := hargs h2l
+    have hpf : (popArgsM m s.argn).2.fault = m.fault := by simp [popArgsM_fault, ha]
+    simp only [h1, Bool.false_eq_true, if_false, h.deref, chk_true, hr]
+    split
+    · simp only []
+      rw [popstateM_safe _ (popArgsM m s.argn).2 _ (Nat.le_refl _) hok h2l, hpf]
+    · split
+      · split
+        · simp
+        · simp only []
+          rw [popstateM_safe _ (popArgsM m s.argn).2 _ (Nat.le_refl _) hok h2l, hpf]
+      · have : m.p.states.length - 1 < m.p.states.length := by omega
+        simp [delimErrorM_fault, this]
+
+theorem rootM_p {m : MP} {sp : SPtr} (h : IsTop m sp) {s : Frame} {rest : List Frame} (hs : m.p.states = s :: rest) (c : B) :
+    (rootM m sp c).1.p = (root m.p s c).1 ∧ (rootM m sp c).2 = (root m.p s c).2 := by
+  unfold rootM root
+  by_cases g1 : (c == 39 || c == 44 || c == 59 || c == 126 || c == 124) = true
+  · simp only [g1, if_true]; try simp
+  simp only [g1, Bool.false_eq_true, if_false]
+  by_cases g2 : (c == 34) = true
+  · simp only [g2, if_true]; try simp
+  simp only [g2, Bool.false_eq_true, if_false]
+  by_cases g3 : (c == 35) = true
+  · simp only [g3, if_true]; try simp
+  simp only [g3, Bool.false_eq_true, if_false]
+  by_cases g4 : (c == 64) = true
+  · simp only [g4, if_true]; try simp
+  simp only [g4, Bool.false_eq_true, if_false]
+  by_cases g5 : (c == 96) = true
+  · simp only [g5, if_true]; try simp
+  simp only [g5, Bool.false_eq_true, if_false]
+  by_cases g6 : (c == 41 || c == 93 || c == 125) = true
+  · simp only [g6, if_true]; exact closeDelimM_p h hs c
+  simp only [g6, Bool.false_eq_true, if_false]
+  by_cases g7 : (c == 40) = true
+  · simp only [g7, if_true]; try simp
+  simp only [g7, Bool.false_eq_true, if_false]
+  by_cases g8 : (c == 91) = true
+  · simp only [g8, if_true]; try simp
+  simp only [g8, Bool.false_eq_true, if_false]
+  by_cases g9 : (c == 123) = true
+  · simp only [g9, if_true]; try simp
+  simp only [g9, Bool.false_eq_true, if_false]
+  by_cases g10 : isWhitespace c = true
+  · simp only [g10, if_true]; try simp
+  simp only [g10, Bool.false_eq_true, if_false]
+  by_cases g11 : (!isSymbolChar c) = true
+  · simp only [g11, if_true]; try simp
+  simp only [g11, Bool.false_eq_true, if_false]
+  simp
+
+theorem rootM_safe {m : MP} {sp : SPtr} (h : IsTop m sp) {s : Frame} {rest : List Frame} (hs : m.p.states = s :: rest)
+    (hok : okFrames m.p.states = true) (hargs : 2 ≤ m.p.states.length → s.argn ≤ m.p.args.length) (c : B) :
+    (rootM m sp c).1.fault = m.fault := by
+  unfold rootM
+  by_cases g1 : (c == 39 || c == 44 || c == 59 || c == 126 || c == 124) = true
+  · simp only [g1, if_true]; try simp
+  simp only [g1, Bool.false_eq_true, if_false]
+  by_cases g2 : (c == 34) = true
+  · simp only [g2, if_true]; try simp
+  simp only [g2, Bool.false_eq_true, if_false]
+  by_cases g3 : (c == 35) = true
+  · simp only [g3, if_true]; try simp
+  simp only [g3, Bool.false_eq_true, if_false]
+  by_cases g4 : (c == 64) = true
+  · simp only [g4, if_true]; try simp
+  simp only [g4, Bool.false_eq_true, if_false]
+  by_cases g5 : (c == 96) = true
+  · simp only [g5, if_true]; try simp
+  simp only [g5, Bool.false_eq_true, if_false]
+  by_cases g6 : (c == 41 || c == 93 || c == 125) = true
+  · simp only [g6, if_true]; exact closeDelimM_safe h hs hok hargs c
+  simp only [g6, Bool.false_eq_true, if_false]
+  by_cases g7 : (c == 40) = true
+  · simp only [g7, if_true]; try simp
+  simp only [g7, Bool.false_eq_true, if_false]
+  by_cases g8 : (c == 91) = true
+  · simp only [g8, if_true]; try simp
+  simp only [g8, Bool.false_eq_true, if_false]
+  by_cases g9 : (c == 123) = true
+  · simp only [g9, if_true]; try simp
+  simp only [g9, Bool.false_eq_true, if_false]
+  by_cases g10 : isWhitespace c = true
+  · simp only [g10, if_true]; try simp
+  simp only [g10, Bool.false_eq_true, if_false]
+  by_cases g11 : (!isSymbolChar c) = true
+  · simp only [g11, if_true]; try simp
+  simp only [g11, Bool.false_eq_true, if_false]
+  simp
+
+/-! ### one loop iteration -/
+
+theorem stepM_p (scan : List B → Option String) (m : MP) (c : B) (hne : m.p.states ≠ []) :
+    (stepM scan m c).1.p = (step scan m.p c).1 ∧ (stepM scan m c).2 = (step scan m.p c).2 := by
+  have h := isTop_topPtr hne
+  cases hs : m.p.states with
+  | nil => exact absurd hs hne
+  | cons s rest =>
+    have hr : readState m (topPtr m) = s := by rw [h.read, hs]; rfl
+    unfold stepM step
+    simp only [h.deref, chk_true, hr, hs]
+    cases hc : s.consumer <;> simp only []
+    · exact rootM_p h hs c
+    · exact tokencharM_p scan h hs c
+    · exact stringcharM_p h hs c
+    · exact escape1M_p h hs c
+    · exact escapehM_p h hs c
+    · exact escapeuM_p h hs c
+    · exact longstringM_p h hs c
+    · exact commentM_p m _ s c
+    · exact atsignM_p m _ s c
+
+/-- the scratch buffer of a token frame is not empty when the token ends (`p->buf[0]` in `tokenchar`) -/
+def TokB (p : Parser) (c : B) : Prop :=
+  ∀ s rest, p.states = s :: rest → s.consumer = .tokenchar → p.buf ≠ [] ∨ isSymbolChar c = true
+
+theorem wf_top_argn {p : Parser} (hwf : WF p) {s : Frame} {rest : List Frame} (hs : p.states = s :: rest)
+    (hc : s.consumer = .root) (h2 : 2 ≤ p.states.length) : s.argn ≤ p.args.length := by
+  have hsum := hwf.sum
+  have hok := hwf.ok
+  rw [hs] at hsum hok h2
+  cases rest with
+  | nil => simp at h2
+  | cons g l =>
+    rw [inner_cons (by simp)] at hsum
+    rw [okFrames_cons (by simp)] at hok
+    simp only [Bool.and_eq_true] at hok
+    cases hcont : isCont s with
+    | true => simp [hcont] at hsum; omega
+    | false =>
+      have := hok.1
+      simp [okF, hcont, hc] at this
+      omega
+
+/-- ★ no checked access of one consumer call fails on a well-formed parser -/
+theorem stepM_safe (scan : List B → Option String) (m : MP) (c : B) (hwf : WF m.p) (ht : TokB m.p c) :
+    (stepM scan m c).1.fault = m.fault := by
+  have hne : m.p.states ≠ [] := okFrames_ne_nil hwf.ok
+  have h := isTop_topPtr hne
+  cases hs : m.p.states with
+  | nil => exact absurd hs hne
+  | cons s rest =>
+    have hr : readState m (topPtr m) = s := by rw [h.read, hs]; rfl
+    have hok := hwf.ok
+    unfold stepM
+    simp only [h.deref, chk_true, hr]
+    cases hc : s.consumer <;> simp only []
+    · exact rootM_safe h hs hok (fun h2 => wf_top_argn hwf hs hc h2) c
+    · exact tokencharM_safe scan h hs hok (by rw [hc]; decide) c (ht s rest hs hc)
+    · exact stringcharM_safe h hs hok (by rw [hc]; decide) c
+    · exact escape1M_safe h c
+    · exact escapehM_safe h c
+    · exact escapeuM_safe h c
+    · exact longstringM_safe h hs hok (by rw [hc]; decide) c
+    · exact commentM_safe _ hne c
+    · exact atsignM_safe _ hne c
+
 end JanetModel.Parse
